@@ -84,6 +84,59 @@ func fenRoundTrip(c *fw.Ctx, p ref.Pos) {
 	}
 }
 
+// transposition finds a quiet piece move, a quiet reply and a pawn move of the first side that can also be played
+// in the order pawn move, reply, piece move, reaching the same position (with a different half-move clock).
+func transposition(r *rand.Rand, p ref.Pos) ([]ref.Move, bool) {
+	quiet := func(q ref.Pos, pawn bool) []ref.Move {
+		var l []ref.Move
+		ms := q.LegalMoves()
+		for _, i := range r.Perm(len(ms)) {
+			m := ms[i]
+			if m.Capture == 0 && m.Promo == 0 && (m.Kind == ref.KNormal || m.Kind == ref.KPush) && (m.Piece == ref.Pawn) == pawn && m.Piece != ref.King && m.Piece != ref.Rook {
+				l = append(l, m)
+			}
+		}
+		return l
+	}
+	find := func(q ref.Pos, want ref.Move) (ref.Move, bool) {
+		return q.FindMove(want.From, want.To, want.Promo)
+	}
+	for ai, a := range quiet(p, false) {
+		if ai >= 4 {
+			break
+		}
+		pa := p.Apply(a)
+		for bi, b := range quiet(pa, false) {
+			if bi >= 3 {
+				break
+			}
+			pab := pa.Apply(b)
+			for _, cmove := range quiet(pab, true) {
+				end := pab.Apply(cmove)
+				// the other order
+				c1, ok := find(p, cmove)
+				if !ok || c1.Capture != 0 || c1.Kind != ref.KPush {
+					continue
+				}
+				q1 := p.Apply(c1)
+				b1, ok := find(q1, b)
+				if !ok || b1.Capture != 0 {
+					continue
+				}
+				q2 := q1.Apply(b1)
+				a1, ok := find(q2, a)
+				if !ok || a1.Capture != 0 {
+					continue
+				}
+				if q3 := q2.Apply(a1); q3.Key() == end.Key() {
+					return []ref.Move{a, b, cmove}, true
+				}
+			}
+		}
+	}
+	return nil, false
+}
+
 func engineFENSession(c *fw.Ctx, r *rand.Rand, start ref.Pos, bias gen.Bias, steps int) {
 	ctx := context.Background()
 	e := recipes[0].newEngine(ctx, engine.Options{Depth: 1, Hash: 0}, 0, nil)
@@ -119,6 +172,42 @@ func engineFENSession(c *fw.Ctx, r *rand.Rand, start ref.Pos, bias gen.Bias, ste
 		ms := g.Cur.LegalMoves()
 		if len(ms) == 0 {
 			break
+		}
+		if r.Intn(12) == 0 {
+			// the same position on the same ply by another move order, with the last pawn move at another place
+			// (so with another clock), reached by taking back without asking for the FEN in between
+			if line, ok := transposition(r, g.Cur); ok {
+				play := func(ms []ref.Move, ask bool) bool {
+					for _, m := range ms {
+						if err := e.Move(ctx, m.String()); err != nil {
+							c.Violate("enginefen:move", "legal move %v rejected in %q: %v", m, g.Cur.FEN(), err)
+							return false
+						}
+						g.Push(m)
+						if ask && !check("move "+m.String()) {
+							return false
+						}
+					}
+					return true
+				}
+				if !play(line, true) {
+					return
+				}
+				for range line {
+					if e.TakeBack(ctx) != nil {
+						return
+					}
+					g.Pop()
+				}
+				if !play([]ref.Move{line[2], line[1], line[0]}, false) {
+					return
+				}
+				c.Count("engine_fen_transpositions", 1)
+				if !check(fmt.Sprintf("%v %v %v, three take-backs, then %v %v %v", line[0], line[1], line[2], line[2], line[1], line[0])) {
+					return
+				}
+				continue
+			}
 		}
 		if r.Intn(40) == 0 {
 			// the reported FEN is the game's also while the engine is thinking about it
@@ -181,7 +270,7 @@ func init() {
 			return l
 		},
 		Floors: func(string) map[string]int64 {
-			return map[string]int64{"roundtrips": 5000, "with_ep": 100, "partial_rights": 300, "black_to_move": 1000, "engine_fen_checks": 5000, "engine_castles": 10, "engine_takebacks": 100, "engine_ep": 1, "engine_fen_during_analysis": 100}
+			return map[string]int64{"roundtrips": 5000, "with_ep": 100, "partial_rights": 300, "black_to_move": 1000, "engine_fen_checks": 5000, "engine_castles": 10, "engine_takebacks": 100, "engine_ep": 1, "engine_fen_during_analysis": 100, "engine_fen_transpositions": 50}
 		},
 		Run: func(c *fw.Ctx, cs fw.Case) {
 			r := cs.Rand()
